@@ -51,6 +51,20 @@ def c01_runs(tier):
                     L=2 if q else 3, symtruth=0, symtime=4)
     r += per_method('task', [1] if q else [1, 2], ['task.handler-ran'], K=0, J=3, R=2, acts=A_TASK, A=2,
                     L=2 if q else 3, symtruth=0)
+    # the other object kinds: their own harnesses with unregister+free from inside handlers
+    r.append(mt_run('event', 'harness/event.c', ['event.unregister-self-in-handler',
+                                                 'event.unregister-sibling-in-handler'],
+                    preempt=0, E=3, P=0, Q=0, method=1, owner=2, ops=3, selfpost=1))
+    r.append(mt_run('raw-event', 'harness/eventraw.c', ['raw.unregister-in-handler'], preempt=1, R=2, T=0, N=0,
+                    unreg=1, ownerpost=1, cfg=0 if q else 2))
+    r.append(mt_run('signal', 'harness/signal.c', ['signal.unregister-self-in-handler'], preempt=1, I=2, T=1, D=2,
+                    ops=2))
+    r.append(mt_run('wait', 'harness/wait.c', ['wait.unregister-in-handler'], preempt=1, C=2, strangers=0, events=3,
+                    ops=2))
+    r.append({'name': 'inotify', 'sources': ['harness/inotify.c'] + ENVSRC,
+              'params': {'scenario': 1, 'W': 2, 'M': 2},
+              'covers': ['inotify.unregister-self-in-handler', 'inotify.unregister-other-in-handler',
+                         'inotify.unregister-instance-in-handler'], 'bounds': 'W=2 M=2'})
     return r
 
 
@@ -376,7 +390,8 @@ CHECKS = {
                            'objects are really freed, so any later library access is detected at the access.',
             'bounds': {'quick': 'K=2 fds / T=3 timers / J=3 tasks, <=2 actions per callback, 2 operations, 2 iterations',
                        'thorough': '3 operations, all four poll methods'},
-            'outside': LOOP_OUTSIDE + '; event/raw-event/signal/wait/inotify objects are covered by C08-C11, C20 harnesses',
+            'outside': LOOP_OUTSIDE + '; for events, raw events, signal interests, wait interests and inotify objects the '
+                       'bounds are those of the C08-C11/C20 harnesses run here with unregister-in-handler enabled',
             'assumptions': ENV_ASSUMPTIONS},
     'C02': {'runs': c02_runs,
             'explanation': 'C02: readiness of every descriptor is a solver unknown at every wait; at wait entry the '
